@@ -54,6 +54,9 @@ type Ack struct {
 	Cas   []uint64                               `json:"cas,omitempty"` // every CAS the step handed out
 	Devs  []Deviation                            `json:"devs,omitempty"`
 	UUID  string                                 `json:"uuid,omitempty"`
+	// Count mode: how often each hook had been reached when the step began / when its call returned
+	HooksBefore map[string]int `json:"hooksBefore,omitempty"`
+	HooksAfter  map[string]int `json:"hooksAfter,omitempty"`
 }
 
 func emit(kind string, v any) {
@@ -114,8 +117,21 @@ func ChildMain(planPath string) {
 	for i, op := range plan.Steps {
 		before := len(run.Devs)
 		casBefore := w.Model.MaxIssued
+		snap := func() map[string]int {
+			if !plan.Count {
+				return nil
+			}
+			mu.Lock()
+			defer mu.Unlock()
+			m := make(map[string]int, len(counts))
+			for k, v := range counts {
+				m[k] = v
+			}
+			return m
+		}
+		hooksBefore := snap()
 		run.Do(op)
-		ack := Ack{I: i, Model: w.Model, DDocs: run.DDocs, Devs: run.Devs[before:]}
+		ack := Ack{I: i, Model: w.Model, DDocs: run.DDocs, Devs: run.Devs[before:], HooksBefore: hooksBefore, HooksAfter: snap()}
 		if w.Model.MaxIssued != casBefore {
 			ack.Cas = []uint64{w.Model.MaxIssued}
 		}
